@@ -35,10 +35,15 @@ def grid_sum(dmax, dmax_m, quick):
             out.append(dict(d=d, ttm=False, index=tuple(s)))
         if d > 1:
             out.append(dict(d=d, ttm=False, index=(-99,)))     # int form: index given as a plain int (position 1)
+            out.append(dict(d=d, ttm=False, index=(-98,)))     # int form with the plain int 0 (falsy, not None)
+            out.append(dict(d=d, ttm=False, index=()))         # empty list: nothing is summed
     for d in range(1, dmax_m + 1):
         out.append(dict(d=d, ttm=True, index=None))
         for s in subsets(d, quick):
             out.append(dict(d=d, ttm=True, index=tuple(s)))
+        if d == 2:
+            out.append(dict(d=d, ttm=True, index=(-98,)))
+            out.append(dict(d=d, ttm=True, index=()))
     return out
 
 
@@ -48,9 +53,9 @@ def sum_(ob, d, ttm, index):
     every mode that is not summed, including original singleton modes"""
     ex = ob.ex
     x = ob.tt('x', d, ttm=ttm)
-    as_int = index == (-99,)
+    as_int = index in ((-99,), (-98,))
     if as_int:
-        index = (1,)
+        index = (1,) if index == (-99,) else (0,)
     ob.replay_args = {'x': 'x', 'index': list(index) if index is not None else None, 'as_int': as_int}
     arg = None if index is None else (index[0] if as_int else list(index))
     r = ex.call(ex.getattr(x, 'sum'), [] if arg is None else [arg])
